@@ -370,6 +370,12 @@ def chain_plan(ctx, volume=1):
 
 
 # ----------------------------------------------------------------------------- correspondence
+def translate(ctx):
+    """regenerate lean/QGen/C06.lean from the current source (c06_translate.py); QProps proves model = generated"""
+    import c06_translate
+    return c06_translate.translate()
+
+
 def correspondence(ctx):
     drv = Driver("C06")
     pend = []
@@ -722,8 +728,8 @@ def oracle_tree(ctx, S, br, leaves, rep, seen):
 
 
 PARTIAL = [
-    {"theorem": "mprocess_state_partial", "missing": "formulas for probabilities / post states are stated for the regime where no outcome has weight*p <= eps_zero; for all branches only normalisation of the post states is proved (post_states_normalised)"},
-    {"theorem": "ensemble_step_partial / compose_assoc_mprocess_partial", "missing": "same no-truncation restriction; zero-distribution branch not covered; equality is at the level of the unnormalised states p·rho and the reported shape, not of the normalised StateEnsemble object"},
+    {"theorem": "mprocess_state_partial", "missing": "closed formulas HS_x rho / p_x, weight*p_x are for the no-truncation regime; the eps_zero branch is stated exactly for all inputs in mprocess_state_exact (+ truncated_probs_sum, truncated_weighted_state, post_states_normalised), so nothing of for_States is left unproved"},
+    {"theorem": "ensemble_step_partial / compose_assoc_mprocess_partial", "missing": "ensemble-level layout is proved in the no-truncation regime (truncated outcomes: per-state exact statement only); zero-distribution branch not covered; equality is at the level of the unnormalised states p·rho and the reported shape, not of the normalised StateEnsemble object"},
     {"theorem": "mode1_to_povm_partial", "missing": "real eigenvector matrices, pairwise different eigenvalues, fold form of the spectral sum; repeated eigenvalues (dict grouping) and the complex case are covered by the correspondence / oracle only; mode 0 (sqrtm) not modelled (D14 open)"},
     {"theorem": "compose_physical CP part", "missing": "complete positivity of compositions (Kraus products) not proved; TP/identity-sum parts proved (tp_comp_tp, povm_gate_identity_sum, povm_mprocess_identity_sum, mprocess_prob_sum_one)"},
 ]
